@@ -1,6 +1,7 @@
 package vc
 
 import (
+	"runtime"
 	"fmt"
 	"go/ast"
 	"go/token"
@@ -15,7 +16,14 @@ func osEnviron() []string { return os.Environ() }
 // Unsupported is raised (as panic) when a construct is outside the subset.
 type Unsupported struct{ Msg string }
 
-func unsupported(f string, a ...interface{}) { panic(Unsupported{fmt.Sprintf(f, a...)}) }
+func unsupported(f string, a ...interface{}) {
+	if os.Getenv("GOCV_TRACE") != "" && strings.Contains(fmt.Sprintf(f, a...), os.Getenv("GOCV_TRACE")) {
+		buf := make([]byte, 1<<14)
+		n := runtime.Stack(buf, false)
+		fmt.Fprintf(os.Stderr, "GOCV_TRACE %s\n%s\n", fmt.Sprintf(f, a...), buf[:n])
+	}
+	panic(Unsupported{fmt.Sprintf(f, a...)})
+}
 
 // Env is a symbolic state.
 type Env struct {
@@ -64,6 +72,7 @@ type fctx struct {
 }
 
 type deferRec struct {
+	call *ast.CallExpr // deferred in-module call (nil for delete)
 	expr ast.Expr
 	key Term
 	pc  Term
@@ -734,6 +743,24 @@ func (x *Exec) execStmt(s ast.Stmt, env *Env, label string) *Env {
 					x.cx.defers = append(x.cx.defers, deferRec{expr: mexpr, key: k, pc: env.pc})
 					return env
 				}
+			}
+		}
+		// defer of an in-module method/function call with evaluated-at-exit semantics approximated: the call is
+		// executed (by contract, inlined or abstractly) on the merged exit state of the paths that passed the defer
+		if fn := x.calleeOf(s.Call); fn != nil {
+			if _, inMod := x.P.ByObj[fn]; inMod {
+				for _, f := range x.cx.frames {
+					if f.kind == "loop" {
+						unsupported("defer inside a loop")
+					}
+				}
+				for _, a := range s.Call.Args {
+					if _, isLit := ast.Unparen(a).(*ast.BasicLit); !isLit {
+						unsupported("defer of in-module call with non-literal arguments")
+					}
+				}
+				x.cx.defers = append(x.cx.defers, deferRec{call: s.Call, pc: env.pc})
+				return env
 			}
 		}
 		unsupported("defer of in-module call")
